@@ -56,6 +56,12 @@ def adversarial(tier="thorough"):
                 ("toml", b"a = " + b"[" * n + b"]" * n), ("toml", b"a = " + b"{b = " * min(n, 5000) + b"1" + b"}" * min(n, 5000)),
                 ("toml", b"[" + b".".join([b"a"] * min(n, 20000)) + b"]\n"),
                 ("msgpack", b"\x91" * n + b"\xc0"), ("msgpack", b"\x81\xa1k" * n + b"\xc0"), ("msgpack", b"\x81" * n + b"\xc0" + b"\x01" * n)]
+    # MessagePack nesting is bounded by xt's own depth accounting (size calculator + rmp's limit): always go deep,
+    # in every nesting shape, also in the quick tier
+    for n in (20000, 300000):
+        out += [("msgpack", b"\x91" * n + b"\xc0"), ("msgpack", b"\x81\xa1k" * n + b"\xc0"), ("msgpack", b"\x81" * n + b"\xc0" + b"\x01" * n),
+                ("msgpack", (b"\x91\x81\xa1k") * (n // 2) + b"\xc0"), ("msgpack", b"\xdc\x00\x01" * n + b"\x01"),
+                ("msgpack", b"\xdf\x00\x00\x00\x01\xa1k" * n + b"\x01")]
     out += [("msgpack", b"\xdb\xff\xff\xff\xff" + b"a" * 10), ("msgpack", b"\xdd\xff\xff\xff\xff\x01"), ("msgpack", b"\xdf\xff\xff\xff\xff\xa1a\x01"),
             ("msgpack", b"\xc6\xff\xff\xff\xffxx"), ("msgpack", b"\xc9\xff\xff\xff\xff\x01x"), ("msgpack", b"\xdc\xff\xff" + b"\x01" * 100),
             ("yaml", b"a: &a [*a]\n"), ("yaml", b"*y"), ("yaml", b"&a"), ("yaml", b"&a *a"), ("yaml", b"a: &x\n  b: *x\n"),
@@ -91,6 +97,8 @@ def run_sessions(outcome, tier, seed):
         combos = [(f, t, m) for f in corpus.FORMATS + [None] for t in corpus.FORMATS for m in ("slice", "reader")]
         if tier == "quick" or len(data) > 20000:
             combos = rng.sample(combos, 3 if len(data) <= 20000 else 2)
+            if len(data) > 20000 and data[:1] in (b"\x91", b"\x81", b"\xdc", b"\xdf"):
+                combos += [("msgpack", rng.choice(corpus.FORMATS), "slice"), ("msgpack", rng.choice(corpus.FORMATS), "reader")]
         for f, t, m in combos:
             call = {"input": shared.hx(data), "from": f, "mode": m}
             if m == "reader":
@@ -145,7 +153,12 @@ def run(outcome, tier, seed):
                     "violation); token sequences as in C02")
     p = subprocess.run([common.HARNESS_BIN, "tokens", "--seed", str(seed), "--tier", tier], stdout=subprocess.PIPE,
                        stderr=subprocess.DEVNULL, env=common.ENV, timeout=3000)
-    if p.returncode != 0:
+    if p.returncode == 3:
+        h = json.loads(p.stdout.decode().strip().split("\n")[-1])
+        fmt, _, hx = h.get("hang", " ").partition(" ")
+        outcome.oracle_failures.append({"what": "hang: a short token sequence does not terminate (no progress for 15 s)", "from": fmt, "input_hex": hx,
+                                        "modes": "translate_slice, then translate_reader with short reads"})
+    elif p.returncode != 0:
         outcome.oracle_failures.append({"what": "the token-sequence run died (status %s): some short input crashes the process" % p.returncode})
     else:
         st = json.loads(p.stdout)
